@@ -481,7 +481,8 @@ def gen_plan(rng, nleaves=None, nfam=None, fancy_names=False, use_internal=None,
             if rng.random() < 0.8:
                 d['protId'] = 'P' + g
             if rng.random() < 0.5:
-                d['geneId'] = 'Gn' + g
+                # cross-reference ids may be shared by several genes (also across families)
+                d['geneId'] = ('SH%d' % rng.randint(0, 2)) if rng.random() < 0.3 else 'Gn' + g
             if rng.random() < 0.2:
                 d['transcriptId'] = 'T' + g
             decls.append(d)
